@@ -61,9 +61,14 @@ Alphabet(f) ==
                                               <<"set_fixed_local_recurrence_rate", 2>>,
                                               <<"set_adaptive_neighborhood_size", 1>>,
                                               <<"set_adaptive_neighborhood_size", 2>>}
-  ELSE IF f \in {"jrp", "jrn"} THEN RpMut \cup {<<"set_fixed_threshold_std", 1>>, <<"set_fixed_threshold_std", 2>>}
+  \* (token 3 of a joint plot: the setting of token 1 for x with that of token 2 for y - only one component changes)
+  ELSE IF f \in {"jrp", "jrn"} THEN RpMut \cup {<<"set_fixed_threshold_std", 1>>, <<"set_fixed_threshold_std", 2>>,
+                                                <<"set_fixed_threshold", 3>>, <<"set_fixed_recurrence_rate", 3>>}
   ELSE IF f = "crp" THEN RpMut
-  ELSE IF f = "isrn" THEN RpMut
+  \* (inter-system networks take a triple (x, y, cross): token 3 differs from token 1 in the y component only,
+  \* token 4 in the cross component only)
+  ELSE IF f = "isrn" THEN RpMut \cup {<<"set_fixed_threshold", 3>>, <<"set_fixed_threshold", 4>>,
+                                      <<"set_fixed_recurrence_rate", 3>>, <<"set_fixed_recurrence_rate", 4>>}
   \* two-layer and event-based climate networks: the similarity-network mutators
   ELSE IF f \in {"ccn", "escn", "ctsonis"} THEN ClimMut
   \* data-driven climate networks: the similarity itself is recomputed by set_winter_only / set_directed
